@@ -51,7 +51,46 @@ func c12RandString(g *Gen) string {
 	return sb.String()
 }
 
+// c12BigNum: bare literals around and beyond 2^53 (float64 rounding visible), int64
+// boundaries, beyond int64, and big non-integers.
+func c12BigNum(g *Gen) c12Num {
+	neg := ""
+	if g.Intn(3) == 0 {
+		neg = "-"
+	}
+	switch g.Intn(10) {
+	case 0:
+		return c12Num(neg + strconv.FormatUint(uint64(1)<<53+uint64(g.Intn(5))-2, 10))
+	case 1:
+		return c12Num(neg + []string{"10000000000000001", "10000000000000000", "99999999999999999", "1234567890123456789", "123456789012345678", "9007199254740993", "9007199254740995", "18014398509481985", "18014398509481987"}[g.Intn(9)])
+	case 2:
+		return c12Num(neg + []string{"9223372036854775807", "9223372036854775806", "9223372036854775295", "9223372036854775296", "9223372036854774784", "9223372036854775808", "9223372036854775809", "9223372036854777856"}[g.Intn(8)])
+	case 3:
+		return c12Num(neg + []string{"18446744073709551615", "18446744073709551616", "100000000000000000000", "12345678901234567890123", "1e19", "1e30"}[g.Intn(6)])
+	case 4, 5:
+		v := g.R.Uint64() >> uint(g.Intn(11))
+		if v < 1<<53 {
+			v |= 1 << 53
+		}
+		if v >= 1<<63 && g.Intn(3) > 0 {
+			v >>= 1
+		}
+		return c12Num(neg + strconv.FormatUint(v, 10))
+	case 6:
+		return c12Num(neg + fmt.Sprintf("%d.%d", g.R.Uint64()>>uint(1+g.Intn(12)), g.Intn(1000)))
+	case 7:
+		return c12Num(neg + fmt.Sprintf("%de%d", g.R.Uint64()>>uint(20+g.Intn(30)), g.Intn(8)))
+	case 8:
+		return c12Num(neg + []string{"1.5", "1e3", "0.9999999999999999", "0.99999999999999999", "4503599627370495.5", "4503599627370496.5", "9007199254740991.5", "2.9999999999999997", "2.9999999999999999", "1e-5", "123456789e-3"}[g.Intn(11)])
+	default:
+		return c12Num(neg + fmt.Sprintf("%d%03de-3", g.R.Uint64()>>uint(4+g.Intn(20)), g.Intn(1000)))
+	}
+}
+
 func c12RandNum(g *Gen) c12Num {
+	if g.Intn(4) == 0 {
+		return c12BigNum(g)
+	}
 	switch g.Intn(8) {
 	case 0:
 		return c12Num(strconv.FormatInt(int64(g.Intn(2000)-1000), 10))
@@ -331,8 +370,15 @@ func c12CallData(g *Gen) interface{} {
 	for i := 0; i < g.Intn(3); i++ {
 		params = append(params, c12KV{fmt.Sprintf("p%d", i), c12RandValue(g, 1, false)})
 	}
+	if g.Intn(3) == 0 {
+		// bare integer literals beyond 2^53 etc. in the hashed params
+		params = append(params, c12KV{"amount", c12BigNum(g)})
+		if g.Intn(2) == 0 {
+			params = append(params, c12KV{"list", []interface{}{c12BigNum(g), "x", c12BigNum(g)}})
+		}
+	}
 	o := c12Obj{{"method", "m" + c12RandString(g)}}
-	if g.Intn(3) > 0 {
+	if len(params) > 0 || g.Intn(3) > 0 {
 		o = append(o, c12KV{"params", params})
 	}
 	return o
